@@ -283,7 +283,7 @@ def _expand(ident, item, all_strands=True) -> dict:
     if second is None:
         return {"id": ident, "input": {"kind": "gene", "doms": _doms(first)}}
     # quick: one same-strand and one mixed-strand combination per pair, alternating forward / reverse
-    strands = STRANDS if all_strands else (STRANDS[0::2] if ident % 2 == 0 else STRANDS[1::2])
+    strands = STRANDS if all_strands else (STRANDS[0::2] if (sum(first) + sum(second)) % 2 == 0 else STRANDS[1::2])
     return {"id": ident, "input": {"kind": "pair", "up": _doms(first), "down": _doms(second),
                                    "strands": [list(s) for s in strands]}}
 
